@@ -37,6 +37,15 @@ def program_slices(tier):
                         tys2=("string", "opt_i32") if not q else ("string",))))
     sl.append(("S2", sc(["struct"], [], [[], ["rename"]], ["tuple", "newtype", "unit", "named0", "tuple0"], [], [],
                         ["i32", "string", "opt_i32", "inner", "vec_i32", "datae", "gen_i32", "tup", "unit", "map"], [[], ["skip"], ["inline"]])))
+    # pairs of attributes on one item (the single attributes are exhausted above)
+    import itertools
+    fpairs = [list(x) for x in itertools.combinations(["inline", "flatten", "optional", "optional_nullable", "optional_ssi", "rename", "default", "skip"], 2)]
+    cpairs = [[]] + [list(x) for x in itertools.combinations(["tag", "rename_all_kebab", "optional_fields", "rename"], 2)]
+    sl.append(("S3", sc(["struct"], [], cpairs if not q else cpairs[:4], ["named"], [], [], ["opt_inner", "inner", "gen_inner", "opt_i32"] if not q else ["opt_inner", "gen_inner"],
+                        fpairs, tys2=("string",))))
+    vpairs = [list(x) for x in itertools.combinations(["untagged", "rename", "rename_all", "skip"], 2)]
+    sl.append(("E5", sc(["enum"], reprs, [[], ["rename_all", "rename_all_fields"], ["rename_all_kebab", "rename"]], [], ["struct2", "newtype", "unit"], vpairs,
+                        ["opt_i32", "inner"] if q else ["opt_i32", "inner", "tage"], [[], ["rename"], ["inline"]], tys2=("string",))))
     # generic programs P<T>, instantiated at i32 / Inner / Option<i32> (thorough: also Vec<Inner>, UnitE)
     gargs = ["i32", "inner", "opt_i32"] if q else list(corpus.GEN_ARGS)
     sl.append(("G1", sc(["struct"], [], [[], ["tag"], ["optional_fields"]] if q else [[], ["tag"], ["optional_fields"], ["rename_all"], ["rename"]],
